@@ -241,9 +241,12 @@ pub enum Site {
     Index,
     MapLit,
     MethodArg,
+    MapOverMapBody,
+    Map3OverMapBody,
+    FilterOverMapBody,
 }
 
-pub const SITES: [Site; 22] = [
+pub const SITES: [Site; 25] = [
     Site::Bare,
     Site::Operand,
     Site::CallBuiltin,
@@ -266,6 +269,9 @@ pub const SITES: [Site; 22] = [
     Site::Index,
     Site::MapLit,
     Site::MethodArg,
+    Site::MapOverMapBody,
+    Site::Map3OverMapBody,
+    Site::FilterOverMapBody,
 ];
 
 impl Site {
@@ -293,12 +299,16 @@ impl Site {
             Site::Index => format!("[{}][0]", p),
             Site::MapLit => format!("{{'k': {}}}.k", p),
             Site::MethodArg => format!("[7, 8].tick({})", p),
+            // the receiver is a map: a separate code path in the macros (map_map / filter over keys)
+            Site::MapOverMapBody => format!("{{'k': 0}}.map(x, {})[0]", p),
+            Site::Map3OverMapBody => format!("{{'k': 0}}.map(x, true, {})[0]", p),
+            Site::FilterOverMapBody => format!("({{'k': 0}}.filter(x, {} >= 0) == ['k'] ? 1 : 0)", p),
         }
     }
     /// What the reference evaluates to when the referenced program evaluates to `v` (all values are >= 0).
     fn sem(self, v: i64) -> i64 {
         match self {
-            Site::SizeList | Site::Map3Pred | Site::FilterBody | Site::AllBody | Site::ExistsBody | Site::ExistsOneBody | Site::Has => 1,
+            Site::SizeList | Site::Map3Pred | Site::FilterBody | Site::FilterOverMapBody | Site::AllBody | Site::ExistsBody | Site::ExistsOneBody | Site::Has => 1,
             _ => v,
         }
     }
@@ -1194,7 +1204,7 @@ fn json_cases(opts: &Opts, rep: &mut Report, pending: &mut Vec<Pending>) {
 pub fn run(opts: &Opts) -> Report {
     let mut rep = Report::new(
         "C12",
-        "reference graphs on <= 4 programs (all graphs on <= 3 programs x 22 referencing constructs + per-edge mixes; 4 programs: every graph in the thorough tier) and chains of 1..64 references per construct, \
+        "reference graphs on <= 4 programs (all graphs on <= 3 programs x 25 referencing constructs (incl. macro bodies over a map receiver) + per-edge mixes; 4 programs: every graph in the thorough tier) and chains of 1..64 references per construct, \
          each executed in a child process on the default stack; every name-collision configuration {type, parameter, program, function} x 7 usage forms in identifier position, 12 calls x 8 configurations in call position, \
          map field vs method x 9 names; re-adding / rebinding histories; JSON documents bound vs the same value bound directly. Non-trivial = distinct (programs, bindings, entry) context; exponential-time cyclic graphs (branching inside a cycle) are skipped and counted",
     );
